@@ -12,6 +12,8 @@ Id(p) == [k |-> "id", name |-> JoinPath(p), path |-> p, mod |-> ""]
 Insn(mn, form, e, sid) == [k |-> "insn", mn |-> mn, form |-> form, e |-> e, sid |-> sid]
 Raw(t, sid) == [k |-> "raw", text |-> t, sid |-> sid]
 Nop(sid) == Insn("nop", "imp", N(0), sid)
+Bin(op, l, r) == [k |-> "bin", op |-> op, l |-> l, r |-> r]
+Def(p) == [k |-> "def", name |-> JoinPath(p), path |-> p]
 
 Classes == {"undefsym", "undefmacro", "undefseg", "labelredef", "constredef", "illegalmode", "immrange",
             "branchrange", "arity", "malformed", "unclosed"}
@@ -23,7 +25,12 @@ Fragment(c, v) ==
                             <<CASE v = 0 -> Insn("lda", "dir", Id(<<"nosuchsym">>), "F1")
                                 [] v = 1 -> Insn("jmp", "dir", Id(<<"nosuchsym">>), "F1")
                                 [] v = 2 -> Insn("lda", "dir", Id(<<"segments">>), "F1")
-                                [] OTHER -> Insn("ldx", "imm", [k |-> "id", name |-> ">segments.default", path |-> <<"segments", "default">>, mod |-> ">"], "F1")>>
+                                [] v = 3 -> Insn("ldx", "imm", [k |-> "id", name |-> ">segments.default", path |-> <<"segments", "default">>, mod |-> ">"], "F1")
+                                (* the undefined name shares its expression with a `defined(..)' probe, on either side *)
+                                [] v = 4 -> Insn("lda", "imm", Bin("+", Id(<<"nosuchsym">>), Def(<<"far">>)), "F1")
+                                [] v = 5 -> Insn("lda", "imm", Bin("+", Def(<<"nosuchsym2">>), Id(<<"nosuchsym">>)), "F1")
+                                [] v = 6 -> [k |-> "if", e |-> Bin("&&", Id(<<"nosuchsym">>), Def(<<"far">>)), hasElse |-> FALSE, else |-> <<>>, sid |-> "F1", then |-> <<Nop("F2")>>]
+                                [] OTHER -> [k |-> "data", w |-> 1, es |-> <<N(1), Bin("-", Id(<<"nosuchsym">>), Def(<<"far">>))>>, sid |-> "F1"]>>
     [] c = "undefmacro"  -> <<[k |-> "macrocall", name |-> "nosuchmacro", args |-> (IF v = 0 THEN <<>> ELSE <<N(1)>>), sid |-> "F1"]>>
     [] c = "undefseg"    -> <<[k |-> "useseg", name |-> "nosuchseg", hasBody |-> (v = 0), body |-> (IF v = 0 THEN <<Nop("F2")>> ELSE <<>>), sid |-> "F1"]>>
     [] c = "labelredef"  -> <<[k |-> "label", name |-> "dupl", hasBody |-> FALSE, body |-> <<>>, sid |-> "F1"], Nop("x"),
